@@ -349,7 +349,29 @@ func funcAll(c *core.Ctx, in []string, r *core.Rand) bool {
 		if !unchanged("Distinct") || !scribble("Distinct", got) || !scribble("DistinctFunc", gotF) {
 			return false
 		}
-		c.Count("distinct", 2)
+		// a symmetric but NON-transitive equals (|a-b| <= 1): the definition is still
+		// the plain loop "keep v unless some KEPT element equals it"
+		near := func(a, b int) bool { return a-b <= 1 && b-a <= 1 }
+		var wantN []int
+		for _, v := range intSnap {
+			dup := false
+			for _, k := range wantN {
+				if near(k, v) {
+					dup = true
+					break
+				}
+			}
+			if !dup {
+				wantN = append(wantN, v)
+			}
+		}
+		if gotN := slices.DistinctFunc(ints, near); !eqSlice(gotN, wantN) {
+			return fail("DistinctFunc:non-transitive-equals", fmt.Sprintf("DistinctFunc(%v, |a-b|<=1) gives %v, the plain loop gives %v", clip(intSnap), clip(gotN), clip(wantN)))
+		}
+		if !eqSlice(ints, intSnap) {
+			return fail("DistinctFunc:input-modified", "DistinctFunc modified its input")
+		}
+		c.Count("distinct", 3)
 	}
 	// ---- Except / ExceptSet (both Set implementations)
 	{
@@ -386,7 +408,30 @@ func funcAll(c *core.Ctx, in []string, r *core.Rand) bool {
 		if !unchanged("Except") || !scribble("Except", got) {
 			return false
 		}
-		c.Count("except", 3)
+		// a long exclusion list in a buffer the caller re-uses: edited in place
+		// between two calls, the second call must see the new contents
+		{
+			ex := make([]string, 9+r.Intn(4))
+			for i := range ex {
+				ex[i] = fmt.Sprintf("k%d", i)
+			}
+			for round := 0; round < 3; round++ {
+				var w []string
+				for _, v := range snap {
+					if !contains(ex, v) {
+						w = append(w, v)
+					}
+				}
+				if g := slices.Except(in, ex); !eqSlice(g, w) {
+					return fail("Except:reused-exclusion-buffer", fmt.Sprintf("Except with a re-used, edited exclusion buffer %q gives %q want %q (call %d)", ex, clipS(g), clipS(w), round+1))
+				}
+				ex[r.Intn(len(ex))] = c14alpha[r.Intn(3)]
+				if len(snap) > 0 {
+					ex[r.Intn(len(ex))] = snap[r.Intn(len(snap))]
+				}
+			}
+		}
+		c.Count("except", 6)
 	}
 	// ---- GroupBy / CountBy: keyer with collisions
 	{
@@ -625,6 +670,16 @@ func funcAll(c *core.Ctx, in []string, r *core.Rand) bool {
 			return fail("maps:nil-map", "map helpers misbehave on a nil map")
 		}
 		tmaps.Clear(nilm)
+		// "every returned map is new and can be modified": also the clone of a nil map
+		if p, pv := core.Catch(func() {
+			cn := tmaps.Clone(nilm)
+			cn[1] = "x"
+			if len(cn) != 1 || len(nilm) != 0 {
+				panic("clone of nil map is not an independent map")
+			}
+		}); p {
+			return fail("maps.Clone:nil-map-not-writable", fmt.Sprintf("writing to the clone of a nil map: %v", pv))
+		}
 		c.Count("map_helpers", 9)
 	}
 	return unchanged("final")
